@@ -208,7 +208,9 @@ class Broker:
         if contract is None:
             contracts = list(self._holdings_margins)
         else:
-            contracts = [contract]
+            # Holdings are keyed by tradable contracts: a futures chain is
+            # marked through the contract it currently designates.
+            contracts = [contract.static_hashing()]
         for contract in contracts:
             # Vary the _margin to reflect gains or losses.
             if contract.margin_requirement == 0:
